@@ -48,3 +48,30 @@ func TestVerifWitnessC05Helo(t *testing.T) {
 		}
 	}
 }
+
+// C05: a quoted local part containing '@', ':' or ',' was put between the angle brackets unquoted:
+// RCPT TO:<@evil.example:victim@example.com> is a source route to another mailbox under RFC 5321.
+func TestVerifWitnessC05QuotedLocalPart(t *testing.T) {
+	for _, rcpt := range []string{`"@evil.example:victim"@example.com`, `"a@b"@example.com`, `"a,b"@example.com`} {
+		srv := &vServer{Greeting: "220 ready\r\n", Respond: vOK}
+		c := vClient(t, srv)
+		m := NewMsg()
+		_ = m.From("s@b.c")
+		if err := m.To(rcpt); err != nil {
+			continue // the setter refuses the address: nothing is sent
+		}
+		m.SetBodyString(TypeTextPlain, "x")
+		_ = c.Send(m)
+		_ = c.Close()
+		for _, l := range srv.Commands {
+			if !strings.HasPrefix(strings.ToUpper(l), "RCPT TO:") {
+				continue
+			}
+			path := l[strings.Index(l, "<")+1 : strings.LastIndex(l, ">")]
+			at := strings.LastIndex(path, "@")
+			if at < 0 || strings.ContainsAny(path[:at], `@:,;()[]\"`) {
+				t.Errorf("recipient %s: command %q carries a path that does not denote the mailbox that was set", rcpt, l)
+			}
+		}
+	}
+}
